@@ -61,13 +61,13 @@ Definition value_guard (sl : slot) (u : unit_kind) (v : R) (s : spdc) : Prop :=
   | SBeamPhi _ => 0 <= v < 360
   | SBeamWavelength _ => v <> 0
   | SBeamFrequency _ => v <> 0
-  | SBeamThetaExternal b => - PI < snell_internal (get_beam b s) (Rabs (si_of u v)) (s_crystal_setup s) <= PI
+  | SBeamThetaExternal b => - PI < snell_internal (get_beam b s) (si_of u v) (s_crystal_setup s) <= PI
   | _ => True
   end.
 
 Definition expected_value (sl : slot) (u : unit_kind) (v : R) (s : spdc) : R :=
   match sl with
-  | SBeamThetaExternal b => round4 (snell_internal (get_beam b s) (Rabs (si_of u v)) (s_crystal_setup s) / (PI / 180))
+  | SBeamThetaExternal b => round4 (snell_internal (get_beam b s) (si_of u v) (s_crystal_setup s) / (PI / 180))
   | SBeamFrequency _ => round4 (c_light / (v * 1e12) / 1e-9)   (* shown as the vacuum wavelength in nm *)
   | _ => round4 v
   end.
